@@ -421,7 +421,7 @@ func (env *SpecEnv) ident(name string, hint types.Type) Value {
 		if it, ok := env.fr.loopSeen[n]; ok {
 			cur, ok := env.st.ghost[it.seen]
 			if !ok {
-				cur = env.ex.initialComp(it.seen)
+				cur = env.ex.initialCompIn(env.st, it.seen)
 			}
 			return Term{S: cur, T: &SetType{Elem: it.mc.kt}}
 		}
